@@ -26,7 +26,7 @@ for d in sorted(glob.glob(os.path.join(root, "seeded", "C*-m*"))):
     cls = " ".join("`%s`" % c for c in m["check_result"].get("violation_classes", [])[:2])[:150]
     rows.append("| `%s` | %s | %s | %s | %s %s | %s |" % (name, m["breaks_property"], ", ".join(files), title.replace("|", "/"), verdict, cls, notes.get(name, "detected at the quick tier as delivered")))
 table = """<!-- SEEDED-TABLE-BEGIN -->
-### Seeded changes from independent sub-agents (eight waves of 11 agents: 2 + 2 + 3 + 3 + 3 + 3 + 3 + 2 changes per agent)
+### Seeded changes from independent sub-agents (eight waves of 11 agents: 2 + 2 + 3 + 3 + 3 + 3 + 3 + 2 changes per agent, and a ninth of 4 agents x 2)
 
 Each agent got only the text of one property and its own scratch worktree; nothing from /verif. Every change was
 confirmed by me in a scratch worktree (`intake.sh`): the demonstration passes on the clean tree; with the change
@@ -40,7 +40,7 @@ was then run against a scratch worktree with the patch applied (`evalmut.sh`; /r
 %d changes: %d were detected by the checks as they stood when the change arrived, %d were missed at first and each miss
 was turned into a workload / fault / oracle extension (last column) after which it is detected at the quick tier,
 %d are superseded (neutralised by a later repair of a base defect they led to), %d remain undetected by the check of the
-property they were filed under (see the history column: C11-c11c-m1 changes no output of any C11 tool and is caught under C05; C04-c04e-m2 needs a conjunction the generators reach about 3 times in 10^8 runs; C03-c03f-m2 needs a two-traf protected fragment with mixed IV signalling that no generator or corpus file provides; C12-c12g-m2/m3 are explained in their history notes).
+property they were filed under (see the history column: C11-c11c-m1 changes no output of any C11 tool and is caught under C05; C04-c04e-m2 needs a conjunction the generators reach about 3 times in 10^8 runs; C03-c03f-m2 needs a two-traf protected fragment with mixed IV signalling that no generator or corpus file provides; C12-c12g-m2/m3 and the four wave-9 changes C05-c05i-m1/m2, C08-c08i-m2, C12-c12i-m1 are explained in their history notes).
 <!-- SEEDED-TABLE-END -->""" % ("\n".join(rows), stats["total"], stats["first"], stats["later"], stats["superseded"], stats["missed"])
 p = os.path.join(root, "DESIGN.md")
 s = open(p).read()
